@@ -248,10 +248,16 @@ def run(tier, seed):
     for e in ea_:
         res.violation("model evaluation failed (coqc)", dict(kind="coqc-error", log=e, no_failing_input_found=True))
     coll_corr += [dict(ameta[i], what="full A-FSSH pass (Model/Traj.step_af vs the loop body of AugmentedFSSH.simulate)") for i in fa_[:4]]
+    # ---- the same with augmented_integration = "rk4" (Model/Traj.step_af_rk4)
+    acr, ametar = ptraj.collect_af(res, rng, 8 if tier == "quick" else 100, 40 if tier == "quick" else 800, aug="rk4")
+    far_, ear_ = run_case_check("C11trajr", ptraj.PRELUDE_T, "caseA", "chkAr", acr, per_file=8, timeout=1500)
+    for e in ear_:
+        res.violation("model evaluation failed (coqc)", dict(kind="coqc-error", log=e, no_failing_input_found=True))
+    coll_corr += [dict(ametar[i], what="full A-FSSH pass with rk4 moments (Model/Traj.step_af_rk4 vs the loop body of AugmentedFSSH.simulate)") for i in far_[:4]]
     failing, errors = run_case_check("C11", PRELUDE, "case11", "chk11", cases, per_file=12, timeout=1500)
     for e in errors:
         res.violation("model evaluation failed (coqc)", dict(kind="coqc-error", log=e, no_failing_input_found=True))
-    res.traces_validated = len(cases) - len(failing) + len(gcs) - len(fg) + len(scs) - len(fs) + len(ac) - len(fa_)
+    res.traces_validated = len(cases) - len(failing) + len(gcs) - len(fg) + len(scs) - len(fs) + len(ac) - len(fa_) + len(acr) - len(far_)
     corr = [meta[i] for i in failing[:4]] + coll_corr
     if bad:
         res.violation("implementation violates: " + bad[0]["failed"], dict(kind="oracle", failing_inputs=bad[:4], correspondence_failures=corr))
